@@ -116,35 +116,29 @@ func kindOf(v any) int {
 	return 0
 }
 
-// sigilLeafKey: the known finding K1 — the path has an empty segment immediately before its last
-// segment, the receiver at that point is an object, and that object has the key sigil+lastSegment.
+// sigilLeafKey: the known finding K1 — somewhere in the path an object receives a remainder that, after
+// its leading '.', itself begins with a sigil ('.' or '#': an empty segment); the code then takes the WHOLE
+// remainder as a key, and the object has exactly that key (e.g. key ".a" answers "..a", key ".a.b" answers "..a.b").
 func sigilLeafKey(root any, path string) bool {
-	for _, sig := range []string{".", "#"} {
-		for _, dbl := range []string{"." + sig} { // ".." or ".#": an empty '.'-segment followed by sigil+name
-			i := strings.LastIndex(path, dbl)
-			if i < 0 {
+	for i := 0; i+1 < len(path); i++ {
+		if path[i] != '.' || (path[i+1] != '.' && path[i+1] != '#') {
+			continue
+		}
+		prefix, rest := path[:i], path[i+1:]
+		var recv any = root
+		if prefix != "" {
+			segs, ok, _ := segments(prefix)
+			if !ok {
 				continue
 			}
-			last := path[i+2:]
-			if last == "" || strings.ContainsAny(last, ".#") {
+			var ok2 bool
+			recv, ok2 = navigate(root, segs)
+			if !ok2 {
 				continue
 			}
-			prefix := path[:i]
-			var recv any = root
-			if prefix != "" {
-				segs, ok, _ := segments(prefix)
-				if !ok {
-					continue
-				}
-				var ok2 bool
-				recv, ok2 = navigate(root, segs)
-				if !ok2 {
-					continue
-				}
-			}
-			if o, isObj := recv.(at.Object); isObj && o.KeyExists(sig+last) {
-				return true
-			}
+		}
+		if o, isObj := recv.(at.Object); isObj && o.KeyExists(rest) {
+			return true
 		}
 	}
 	return false
